@@ -722,7 +722,8 @@ func corpus(c *hx.Ctx) {
 		{geom{typ: "Point", pt: p1}, map[string]string{"a": "b"}},
 		{geom{typ: "MultiLineString", rings: [][]pos{{p1, p2}}}, map[string]string{}},
 	})
-	// finding reserved-property-key
+	// fixed (fixes/C32-reserved-property-keys.patch; was finding reserved-property-key): a property named point on a
+	// LineString aborted the import, on a Point it was shadowed by the geometry tag
 	importOp(c, []feature{{geom{typ: "LineString", line: []pos{p1, p2}}, map[string]string{"point": "zz"}}})
 	importOp(c, []feature{{geom{typ: "Point", pt: p1}, map[string]string{"point": "zz"}}})
 	// fixed: closed rings kept their closing position as a loop vertex
